@@ -181,6 +181,9 @@ def safety_problems(r, scn, ops):
         e = r['err']
         if e.startswith('TIMEOUT'):
             return [('timeout', 'a library call did not return within the CPU watchdog')]
+        if e.startswith('DIED rc=2 ') or e.startswith('BAD') or e == 'NOOUTPUT':
+            # exit code 2 is the executor's own set-up failure (file list / zoo file vanished, bad case line): never a verdict
+            return [('machinery', e[:300])]
         return [('crash', 'executor died: ' + e[:600])]
     fl = [f for f in r.get('F', '-').split(',') if f in C12_FLAGS]
     for f in fl:
@@ -244,6 +247,7 @@ class Dev:
         self.pending_timeouts = []
         self.open_scn = {}
         self.timing = []
+        self.machinery = []
         self.ref_total, self.ref_unclean = 0, []
 
     # -- baseline ----------------------------------------------------------
@@ -333,6 +337,9 @@ class Dev:
             if s.cls.startswith('S1') or s.tag == 'open':
                 self.open_rc[(s.fm.name, s.mode, env_str(f))] = None if 'err' in r else r['O']
             probs = safety_problems(r, s, s.ops)
+            if probs and probs[0][0] == 'machinery':
+                self.machinery.append((s.name, fault_name(f), probs[0][1]))
+                continue
             for what, desc in probs:
                 if what == 'timeout':
                     self.pending_timeouts.append((s, f, phase))
@@ -392,7 +399,11 @@ class Dev:
             self.stats['recovery_cases'] += 1
             self.per_scn[s.name]['recovery_cases'] += 1
             ops = s.ops + ['q', rop]
-            for what, desc in safety_problems(r, s, ops):
+            probs = safety_problems(r, s, ops)
+            if probs and probs[0][0] == 'machinery':
+                self.machinery.append((s.name, fault_name(f), probs[0][1]))
+                continue
+            for what, desc in probs:
                 if what == 'timeout':
                     self.pending_timeouts.append((s, f, 'recovery_' + rop[:2], ops, 'plin'))
                     continue
@@ -501,7 +512,9 @@ class Dev:
             res = self.rn.run([c[4] for c in part], timeout=self.rn.timeout * 10, jobs=len(part))
             for (key, n, npick, t, line, ops, probe), r in zip(part, res):
                 s, f, phase = t[0], t[1], t[2]
-                if 'err' in r and r['err'].startswith('TIMEOUT'):
+                if 'err' in r and not r['err'].startswith('TIMEOUT'):
+                    self.machinery.append((s.name, fault_name(f), 'timeout re-run: ' + r['err'][:200]))
+                elif 'err' in r:
                     self.stats['timeouts_confirmed'] += 1
                     self.chk.violation(key, '%s with faults %s (first in %s): a library call never returned (CPU watchdog %d s, confirmed alone with %d s); %d cases of this class timed out, %d re-run'
                                        % (s.name, fault_name(f), phase, self.rn.timeout, self.rn.timeout * 10, n, npick),
@@ -581,6 +594,7 @@ def run(tier):
     need = [('open', 'R'), ('open', 'S'), ('open', 'T'), ('rf', 'R'), ('ps', 'R'), ('ps', 'S'), ('pp', 'R'), ('pp', 'S'), ('rs', 'R'), ('rs', 'S'), ('ts', 'S'), ('tp', 'S'), ('PS', 'S'), ('RS', 'R')]
     for phase, fc in need:
         chk.guard(dev.cut or any(p == phase and fc in c for (_, p, c) in ph), 'at least one applied %s-class fault inside %s' % (fc, phase))
+    chk.guard(not dev.machinery, 'executor ran every case (no set-up failure such as a zoo file removed by a concurrent rebuild): %d failures, e.g. %r' % (len(dev.machinery), dev.machinery[:1]))
     chk.guard(not dev.det_errors, 'runs whose deviation was never reached are identical to the fault-free run: %r' % (dev.det_errors[:1],))
     chk.guard(dev.cut or dev.stats['recovery_cases'] > 500, 'recovery clause exercised')
     chk.guard(all(len(v) >= 8 for v in dev.rtargets.values()) and len(dev.rtargets) >= 2, '8 recovery targets per file')
